@@ -43,9 +43,12 @@ const preludeCore = `(set-option :produce-models true)
 (declare-fun uf-shr (Int Int) Int)
 (declare-fun str-eq (Slc Slc) Bool)
 (declare-fun err-is (Int Int) Bool)
+(declare-fun wire (Int Int) Int)
 `
 
 const preludeElem = `(assert (forall ((a Int) (i Int)) (! (and (= (elem-arr (elem a i)) a) (= (elem-idx (elem a i)) i) (< (elem a i) (- 1000000)) (= (refkind (elem a i)) 1) (= (root (elem a i)) (root a)) (= (owner-arr (elem a i)) a)) :pattern ((elem a i)))))
+`
+const preludeWire = `(assert (forall ((r Int) (k Int)) (! (and (<= 0 (wire r k)) (<= (wire r k) 255)) :pattern ((wire r k)))))
 `
 const preludeRoot = `(assert (forall ((r Int)) (! (=> (> r (- 1000000)) (= (root r) r)) :pattern ((root r)))))
 `
@@ -60,6 +63,9 @@ func preludeFor(body string, dropQuant bool) string {
 	}
 	if strings.Contains(body, "(elem ") {
 		p += preludeElem
+	}
+	if strings.Contains(body, "(wire ") {
+		p += preludeWire
 	}
 	if strings.Contains(body, "(root ") {
 		p += preludeRoot
